@@ -39,6 +39,13 @@ const (
 
 	// BlockHeaderSize is the fixed size of each block header
 	BlockHeaderSize = 16
+
+	// MaxKeySize is the largest key the entry format can store (16-bit key length)
+	MaxKeySize = 65535
+
+	// MaxDataSize is the largest entry payload accepted by the writer (2 GiB - 1); it keeps the
+	// 32-bit data, block and compressed-size fields from overflowing
+	MaxDataSize = 1<<31 - 1
 )
 
 // Operation types for entries
@@ -56,6 +63,8 @@ var (
 	ErrCorruptedBlock    = errors.New("block checksum mismatch")
 	ErrCorruptedEntry    = errors.New("entry data corrupted")
 	ErrEmptyKey          = errors.New("entry key cannot be empty")
+	ErrKeyTooLarge       = errors.New("entry key too large: the format stores the key length in 16 bits")
+	ErrDataTooLarge      = errors.New("entry data too large for the block format")
 	ErrFileClosed        = errors.New("file is closed")
 	ErrCompactionRunning = errors.New("compaction is already running")
 )
